@@ -41,6 +41,11 @@ class Verifier(Stmts):
         self.key_projection = {}
         self.ctor_param_fields = {}
         self.vacuity = []
+        self.spec_globals = {'ZERO32': bytes(32)}
+        for ci in registry.classes.values():
+            self.spec_globals[ci.name] = ci.pyclass
+        for pyc, rn in registry.abstract.items():
+            self.spec_globals[rn] = pyc
 
     # ------------------------------------------------------------------------------------------------ resolution
 
@@ -116,6 +121,10 @@ class Verifier(Stmts):
             if a.arg == name and a.annotation is not None:
                 ann = ast.unparse(a.annotation)
                 return from_annotation(ann, self.reg, func.__globals__)
+        if name in ('self', 'cls') and '.' in func.__qualname__:
+            owner = func.__qualname__.split('.')[-2]
+            if owner in self.reg.classes or owner in self.reg.roots:
+                return CLS(owner)
         raise Outside("no type for parameter %s of %s" % (name, getattr(func, '__qualname__', func)))
 
     def make_symbolic(self, name, ty, st):
@@ -162,6 +171,10 @@ class Verifier(Stmts):
             vals[n] = self.make_symbolic(n, ty, st)
         st.frame.vars.update(vals)
         env = self.with_lets(con, st, {})
+        for lname, _t in con.lets:
+            if lname in st.frame.vars:
+                raise Outside("contract let-name %s clashes with a parameter of %s" % (lname, qualname))
+            st.frame.vars[lname] = env[lname]       # ghost local: visible to loop invariants and post-conditions
         for text in con.requires_:
             st.assume(self.spec_bool(text, st, env))
         # vacuity: preconditions + type invariants satisfiable
@@ -256,7 +269,7 @@ class Verifier(Stmts):
             elif con.uf_name:
                 result = self.uf_result(con, rty, vals, node, cst)
             else:
-                result = self.fresh('ret_' + qn.split('.')[-1], rty)
+                result = self.fresh('ret_' + qn.split('.')[-1], rty, cst)
             outs = []
             if con.uf_name is None or not st.spec:
                 pass
@@ -271,6 +284,8 @@ class Verifier(Stmts):
             feasible = True
             for text in con.ensures_ + con.on_any_:
                 normal.assume(self.spec_bool(text, normal, nenv))
+            if con.predicate_:
+                normal.assume(self.predicate_term(con, vals, normal))
             if isinstance(result, V) and result.ty.kind != 'any':
                 self.assume_valid(result, normal)
             normal.old = st.old
@@ -287,6 +302,8 @@ class Verifier(Stmts):
                             es.assume(self.spec_bool(when, es, eenv))
                         for text in con.raises_only_if_ + con.on_raise_ + con.on_any_:
                             es.assume(self.spec_bool(text, es, eenv))
+                        if con.predicate_:
+                            es.assume(z3.Not(self.predicate_term(con, vals, es)))
                         es.old = st.old
                         if self.feasible(es):
                             es.trace.append("%s raises %s" % (qn.split('.')[-1], ecls.__name__))
@@ -301,6 +318,12 @@ class Verifier(Stmts):
             assert s.stack[-1].qualname == qn + ':contract'
             s.stack.pop()
             yield s, r
+
+    def predicate_term(self, con, vals, st):
+        name, args = con.predicate_
+        ts = [self.term(vals[a], None, st) for a in args]
+        f = self.uf('pred_' + name, *([t.sort() for t in ts] + [z3.BoolSort()]))
+        return f(*ts)
 
     def raise_classes(self, con):
         if con.raise_cases is not None:
@@ -407,7 +430,7 @@ class Verifier(Stmts):
 
     def run_cvc5(self, solver):
         try:
-            smt = "(set-logic ALL)\n" + solver.to_smt2()
+            smt = "(set-logic ALL)\n" + solver.to_smt2().replace('seq.nth_i', 'seq.nth').replace('seq.nth_u', 'seq.nth')
             with tempfile.NamedTemporaryFile('w', suffix='.smt2', delete=False) as f:
                 f.write(smt)
                 path = f.name
